@@ -1,7 +1,7 @@
 import Mkts.Model.Float
 import Mkts.Model.ExceptDec
 /-!
-# Scalar aggregates and gap detection (uda/count, uda/min, uda/max, uda/avg, uda/gap, uda/datatypes.go)
+# Scalar aggregates and gap detection (uda/count, uda/min, uda/max, uda/avg, uda/gap, uda/uda.go)
 
 One definition per Go function.  A column is its Go slice type plus the values (integers for the
 integer types, IEEE bit patterns for `[]float32` / `[]float64`).  `ColumnToFloat32/64` convert only
